@@ -680,6 +680,9 @@ func (s *Sim) scanFinal(n *RecvNode) {
 		if strings.HasSuffix(p, ".lck") {
 			return nil
 		}
+		if s.sc.Mode == "w2" && !strings.HasPrefix(p, filepath.Join(root, s.sc.Send.Name)+"/") {
+			return nil // other sources' deliveries are sandbox content, not ours to consume
+		}
 		found = append(found, p)
 		return nil
 	})
